@@ -418,6 +418,9 @@ class Rewriter:
         `format!`/string message arguments of error constructors.  Declared per unit."""
         for rx, rep in patterns:
             text, k = re.subn(rx, rep, text, flags=re.S)
+            if k == 0:
+                # a declared substitution that no longer applies: the code changed shape
+                raise AnchorError('substitution /%s/ matched nothing' % rx)
             self.bump('R3', k)
         return text
 
